@@ -89,6 +89,10 @@ func (o *Out) WriteScenario(id int, fam, src string, cfg map[string]any, exp []a
 		rec["h"] = []Event{}
 	}
 	o.Write(rec)
+	// keep what has been recorded if the library under test crashes the process later on
+	o.mu.Lock()
+	o.w.Flush()
+	o.mu.Unlock()
 }
 
 func (o *Out) Close() {
